@@ -339,12 +339,14 @@ package schema
 //@   requires n.keys != nil && keysWF(n.keys) && (forall j :: 0 <= j && j < len(n.keys.Data) ==> n.keys.Data[j].Index < len(n.children))
 //@   nopanic
 //@   ensures forall q indexKey :: q.Key == key && q.IsShortcut == isShortcut ==> result1 == dom(n.keys.index, q) && (result1 ==> result0 == n.children[n.keys.index[q]])
+//@   ensures result1 ==> (exists i :: 0 <= i && i < len(n.children) && result0 == n.children[i])
 
 //@ func (ObjectNode).ChildByRawKey(rawKey)
 //@   props C01 C13
 //@   requires n.keys != nil && keysWF(n.keys) && (forall j :: 0 <= j && j < len(n.keys.Data) ==> n.keys.Data[j].Index < len(n.children)) && len(rawKey) <= 1000000000000
 //@   nopanic
 //@   ensures !userTypeName(rawKey) ==> (exists s string :: spellsDecoded(s, rawKey) && (forall q indexKey :: q.Key == s && !q.IsShortcut ==> result1 == dom(n.keys.index, q) && (result1 ==> result0 == n.children[n.keys.index[q]])))
+//@   ensures result1 ==> (exists i :: 0 <= i && i < len(n.children) && result0 == n.children[i])
 
 //@ func (ObjectNode).Keys()
 //@   props C09 C01
